@@ -58,7 +58,20 @@ impl RawParameters {
         let mut globals = self.globals.clone();
         if definition.is_resource_name() {
             globals.remove("_name");
-            globals.extend(definition.split_into_parameters());
+            let mut args = definition.split_into_parameters();
+            // Look-ups ('$name', '$name(default)', '(default)') in the arguments of a
+            // macro invocation refer to the scope of the invocation. Hence, they must be
+            // resolved here, before the arguments enter (and potentially shadow) that scope
+            for (key, value) in args.iter_mut() {
+                if value.trim_start().starts_with(['$', '(']) {
+                    let arg = BTreeMap::from([(key.clone(), value.clone())]);
+                    if let Ok(Some(resolved)) = super::parsed_parameters::chase(&globals, &arg, key)
+                    {
+                        *value = resolved;
+                    }
+                }
+            }
+            globals.extend(args);
             globals.remove("inv");
             globals.remove("omit_fwd");
             globals.remove("omit_inv");
